@@ -45,7 +45,7 @@ func order(v string) int {
 
 // DerivedForms are the narrowing forms that produce a value from `a` (the statement's "??, must,
 // as, &&"): each is emitted right after a plain probe, reads `a` once and never assigns it.
-var DerivedForms = []string{"coalesce", "or", "and", "must", "as", "isa", "not", "switch", "ternary"}
+var DerivedForms = []string{"coalesce", "or", "and", "must", "as", "isa", "not", "switch", "ternary", "listmod"}
 
 type emitter struct {
 	sb      strings.Builder
@@ -121,6 +121,12 @@ func (e *emitter) probe(ind int, site []int) {
 		e.line(ind, "end")
 	case "ternary":
 		e.line(ind, fmt.Sprintf("vp(%d, if a then a else 0)", did))
+	case "listmod":
+		// the two-armed modifier inside a collection literal narrows `a` in each element separately
+		did2 := e.base + 500 + e.nextDer
+		e.nextDer++
+		e.sites = append(e.sites, Site{ID: did2, Key: key, Derived: form})
+		e.line(ind, fmt.Sprintf("_lm%d := [vp(%d, a) if a else vp(%d, a)]", did, did, did2))
 	}
 }
 
